@@ -24,6 +24,9 @@ TYPES = {
     "i64": ("i64", "0i64", "-9i64", "77i64", None),
     "u16": ("u16", "0u16", "513u16", "2u16", None),
     "usize": ("usize", "0usize", "3usize", "9usize", None),
+    # payloads that are Default for EVERY T (only with the parameter `tynd`, which has no Default bound)
+    "optT": ("Option<T>", "None", "None", "None", None),
+    "phT": ("::core::marker::PhantomData<T>", "::core::marker::PhantomData", "::core::marker::PhantomData", "::core::marker::PhantomData", None),
     "unit": ("()", "()", "()", "()", None),                                   # a zero-sized payload
     "arr2": ("[u8; 2]", "[0u8; 2]", "[1u8, 2u8]", "[3u8, 4u8]", None),
     "tup": ("(u8, bool)", "(0u8, false)", "(1u8, true)", "(2u8, false)", None),
@@ -49,6 +52,8 @@ GENERICS = {
     "tyconst": dict(decl="<T: Default + Clone + PartialEq + ::core::fmt::Debug, const N: usize>", inst="<u16, 2>", tparam="u16"),
     # a parameter that is only Debug, instantiated with a type that has no Display (C17: `{0:?}` needs no Display bound)
     "tydbg": dict(decl="<T: ::core::fmt::Debug + Clone + PartialEq>", inst="<DbgOnly>", tparam=None),
+    # a parameter WITHOUT a Default bound, instantiated with a type that has none
+    "tynd": dict(decl="<T: ::core::fmt::Debug + Clone + PartialEq>", inst="<NoDef>", tparam=None),
 }
 
 
@@ -403,7 +408,7 @@ def expected_payload(E, v, honour_default_with=True):
 
 def impl_header(E):
     g = GENERICS[E["generics"]]
-    tg = {"none": "", "ty": "<T>", "tywhere": "<T>", "lt": "<'a>", "const": "<N>", "tyconst": "<T, N>", "tydef": "<T>", "constdef": "<N>", "tydbg": "<T>"}[E["generics"]]
+    tg = {"none": "", "ty": "<T>", "tywhere": "<T>", "lt": "<'a>", "const": "<N>", "tyconst": "<T, N>", "tydef": "<T>", "constdef": "<N>", "tydbg": "<T>", "tynd": "<T>"}[E["generics"]]
     return "impl%s %s%s%s" % (g.get("impl_decl", g["decl"]), E["name"], tg, g.get("where", ""))
 
 
@@ -461,7 +466,7 @@ def helper_impl(E):
     n = E["name"]
     decl = g["decl"]
     # type generics without bounds
-    tg = {"none": "", "ty": "<T>", "tywhere": "<T>", "lt": "<'a>", "const": "<N>", "tyconst": "<T, N>", "tydef": "<T>", "constdef": "<N>", "tydbg": "<T>"}[E["generics"]]
+    tg = {"none": "", "ty": "<T>", "tywhere": "<T>", "lt": "<'a>", "const": "<N>", "tyconst": "<T, N>", "tydef": "<T>", "constdef": "<N>", "tydbg": "<T>", "tynd": "<T>"}[E["generics"]]
     lines = ["impl%s %s%s%s {" % (g.get("impl_decl", decl), n, tg, g.get("where", ""))]
     lines.append("    pub fn decl_index(&self) -> usize { match self {")
     for i, v in enumerate(E["variants"]):
